@@ -9,6 +9,9 @@ import r06_validate
 import r07_cache
 import r08_toporder
 import r09_shared
+import r10_fwd
+import r11_const
+import r12_subset
 
 MATRIX = ["baseline", "nofeat", "norayon", "pcsaft", "pcsaft_dft", "epcsaft", "gc_pcsaft", "gc_pcsaft_dft",
           "pets", "pets_dft", "uvtheory", "saftvrmie", "saftvrqmie", "saftvrqmie_dft", "estimator"]
@@ -118,7 +121,43 @@ def r2(ctx, prop):
     return r02_sweep.run(ctx.F())
 
 
+def r10_wrapper(ctx, prop):
+    return r10_fwd.run(ctx.F(), ("wrapper",))
+
+
+def r10_transport(ctx, prop):
+    rs = r10_fwd.run(ctx.F(), ("wrapper", "transport"))
+    # C20: only the EntropyScaling forwarders of the wrapper rule
+    for r in rs:
+        if r.rule == "R10a":
+            r.instances = [i for i in r.instances if "EntropyScaling" in i["id"]]
+            r.nontrivial = {i for i in r.nontrivial if "EntropyScaling" in i}
+            r.findings = [f for f in r.findings if "EntropyScaling" in f.key or "floor|" in f.key]
+    return rs
+
+
+def r10_selector(ctx, prop):
+    return r10_fwd.run(ctx.F(), ("selector",))
+
+
+def r10_identifier(ctx, prop):
+    return r10_fwd.run(ctx.F(), ("identifier",))
+
+
+def r11(ctx, prop):
+    return r11_const.run(ctx.F())
+
+
+def r12(ctx, prop):
+    return r12_subset.run(ctx.F())
+
+
 PROPERTY_RULES = {
+    "C08": [r10_wrapper, r11, r2],
+    "C09": [r12, r10_wrapper],
+    "C10": [r10_selector, r8, r1_idealgas],
+    "C14": [r10_identifier],
+    "C20": [r10_transport],
     "C01": [r1_all, r2, r7, r8, r4],
     "C13": [r1_guard, r8],
     "C17": [r1_functional, r8],
